@@ -102,7 +102,10 @@ def gen_pred(r: random.Random, depth: int = 0, cols: list | None = None) -> list
     if y < 0.85 and t != "bool":
         lo, hi = r.choice(pool), r.choice(pool)
         return ["between", c, lo, hi]
-    if y < 0.95:
+    if y < 0.93:
+        other = r.choice([["lit", r.choice(pool)], ["lit", None], ["col", r.choice([cc for cc, tt in cols if tt == t])]])
+        return ["eqnull", c, other, r.choice(["bare", "bare", "eq_false", "ne_true", "false_eq", "in_false", "eq_true", "not"])]
+    if y < 0.97:
         same = [cc for cc, tt in cols if tt == t]
         ops = ["=", "<>"] if t == "bool" else OPS
         return ["colcmp", c, r.choice(ops), r.choice(same)]
@@ -124,6 +127,11 @@ def pred_sql(p: list, prefix: str = "") -> str:
     if k == "between":
         t = COLTYPE[p[1]]
         return f"{prefix}{p[1]} BETWEEN {lit(p[2], t)} AND {lit(p[3], t)}"
+    if k == "eqnull":
+        other = lit(p[2][1], COLTYPE[p[1]]) if p[2][0] == "lit" else f"{prefix}{p[2][1]}"
+        call = f"EQUAL_NULL({prefix}{p[1]}, {other})"
+        return {"bare": call, "eq_false": f"{call} = FALSE", "ne_true": f"{call} <> TRUE", "false_eq": f"FALSE = {call}", "in_false": f"{call} IN (FALSE)",
+                "eq_true": f"{call} = TRUE", "not": f"NOT {call}"}[p[3]]
     if k == "and":
         return f"({pred_sql(p[1], prefix)} AND {pred_sql(p[2], prefix)})"
     if k == "or":
@@ -174,6 +182,11 @@ def pred_eval(p: list, row: dict) -> bool | None:
     if k == "between":
         v = row[p[1]]
         return _and(_cmp(v, ">=", p[2]), _cmp(v, "<=", p[3]))
+    if k == "eqnull":
+        a = row[p[1]]
+        b = p[2][1] if p[2][0] == "lit" else row[p[2][1]]
+        same = (a is None and b is None) or (a is not None and b is not None and a == b)
+        return same if p[3] in ("bare", "eq_true") else (not same)
     if k == "and":
         return _and(pred_eval(p[1], row), pred_eval(p[2], row))
     if k == "or":
